@@ -162,7 +162,7 @@ PROPS = {
                    'first-order recovery of a perturbation (numerical)']),
     'C14': dict(
         rules=[sensor.sm_names, sensor.sm_count, sensor.sm_accum, sensor.sm_sign, sensor.sm_apply,
-               sensor.sm_gate, purity.rng_src, purity.rng_fwd, layout.corr_pair],
+               sensor.sm_gate, sensor.sm_table, purity.rng_src, purity.rng_fwd, layout.corr_pair],
         decided=['the flag gating the reading-dependent part of the output matrix is true exactly '
                  'when some scale/misalignment state exists (decided by length of the index list)',
                  'state names produced by estimator and simulator and parsed by the estimator '
